@@ -531,3 +531,46 @@ Fixpoint strip_dflt (f : forest) : forest :=
   | [] => []
   | c :: r => if d_dflt c then strip_dflt r else strip_dflt_node c :: strip_dflt r
   end.
+
+(* well-formed input of the theorems (all executable; the correspondence run evaluates it on every generated tree):
+   no metadata (the diff does not carry metadata: LYD_DUP_NO_META), the fragment, inner nodes have no value, a
+   non-presence container carries the default flag iff all its children do (what the parser and validation
+   maintain), other inner nodes and list keys never carry it, terms have no children, children sit under their
+   schema parent, list keys lead, are present and are leaves, containers have no key children, siblings are sorted
+   ([sib_okb]), have unique identities, and the order tells different identities apart ([ord_idb]: instances of one
+   system-ordered (leaf-)list that compare equal are the same instance) *)
+Definition is_nilb {A} (l : list A) : bool := match l with [] => true | _ => false end.
+
+Definition same_idb (sch : schema) (x y : dnode) : bool :=
+  match inst_id sch x, inst_id sch y with
+  | Some i, Some j => iid_eqb i j
+  | None, None => true
+  | _, _ => false
+  end.
+
+Definition ord_idb (sch : schema) (f : forest) : bool :=
+  forallb (fun x => forallb (fun y => negb (sib_okb sch x y && sib_okb sch y x) || same_idb sch x y) f) f.
+
+Definition sibs_okb (sch : schema) (f : forest) : bool :=
+  adjb (sib_okb sch) f && uniq_idsb_list sch f && ord_idb sch f.
+
+Fixpoint wf_node (sch : schema) (n : dnode) {struct n} : bool :=
+  match n with
+  | DN s v d m ch =>
+      is_nilb m && negb (userordered sch s) &&
+      match kind_of sch s with
+      | KAny => false
+      | KCont false => Bool.eqb d (forallb d_dflt ch) && is_nilb v && forallb (fun c => negb (is_key sch (d_sid c))) ch
+      | KCont true => negb d && is_nilb v && forallb (fun c => negb (is_key sch (d_sid c))) ch
+      | KList =>
+          negb d && is_nilb v && forallb (fun c => negb (is_key sch (d_sid c))) (nokeys sch ch) &&
+          forallb (fun k => existsb (fun c => d_sid c =? k) ch &&
+                            match kind_of sch k with KLeaf => true | _ => false end) (si_keys (sget sch s))
+      | KLeaf | KLeafList => is_nilb ch && (negb (is_key sch s) || negb d)
+      end &&
+      forallb (fun c => opt_sid_eqb (si_parent (sget sch (d_sid c))) (Some s)) ch &&
+      sibs_okb sch ch && forallb (wf_node sch) ch
+  end.
+
+Definition wfb (sch : schema) (f : forest) : bool :=
+  forallb (fun c => negb (is_key sch (d_sid c))) f && sibs_okb sch f && forallb (wf_node sch) f.
